@@ -225,7 +225,7 @@ def run_slice_scenario(p, wd):
     restore = poison()
     try:
         for ci in range(p.get("ncombos", 3)):
-            cn = rng.randrange(3)
+            cn = rng.choice(p["normals"]) if p.get("normals") else rng.randrange(3)
             # the first combination has no limit, the second a limit strictly below the finest level (when there is one), the
             # others any
             lim = None if ci == 0 else (rng.randrange(pf.L) if (ci == 1 and pf.L > 0) else rng.choice([None] + list(range(pf.L + 1))))
